@@ -24,7 +24,7 @@ ASSUMPTIONS = [
 ]
 REQUIRED_CLASSES = ["offending-line-empty", "non-numeric-in-all-dot-column", "malformed-float", "sign-only", "bad-marker", "bad-plus", "non-numeric", "bad-strand", "fewer-columns", "more-columns", "double-columns",
                     "lazy", "eager", "gzip", "offender-not-in-first-chunk", "format-exception", "malformed-integer-among-signed-ones", "malformed-float-among-scientific-ones"]
-BOUNDS = {"quick": "core: fasta2, fastq, bed3, bed6 with 2..3 records of width 1..2, all p, all k, 4 flag combinations; 60 sampled files for each of 9 formats",
+BOUNDS = {"quick": "core: fasta2, fastq, bed3, bed6 with 2..3 records of width 1..2, all p, all k, 4 flag combinations; every malformed-number text at every record of a three-record bedGraph, narrowPeak and BED6 file; 60 sampled files for each of 9 formats",
           "thorough": "core: 2..4 records widths {1,2,5}; 1200 sampled files per format"}
 BUDGET_S = {"quick": 200, "thorough": 1500}
 
@@ -34,7 +34,7 @@ STRAND_COLS = {"bed6": 5, "narrowpeak": 5, "gtf": 6}
 BAD_NUM = ["x", "12a", "a12", "1x2", "1P", "P", "1.5x", "7Q", "3 ", "-", "+", "1-", "--1", "1-2"]
 # float-typed columns and texts that are not decimal or scientific numbers (a lone sign, two decimal points, an exponent without digits)
 FLOAT_COLS = {"bdg": [3], "narrowpeak": [6, 7, 8]}
-BAD_FLOAT = ["x", "1.5x", "-", "1.2.3", "1..5", "--1.0", "1.-5", "1e-", "1.0e+", "-e1", "1,5", "1.5e-x", "2ex", "3.0e+1x", "1e5x"]
+BAD_FLOAT = ["x", "1.5x", "-", "1.2.3", "1..5", "--1.0", "1.-5", "1e-", "1.0e+", "-e1", "1,5", "1.5e-x", "2ex", "3.0e+1x", "1e5x", "1ee2", "1e2e3", "eleven", "e-e"]
 BAD_STRAND = ["x", "K", "M", "N", "*", "p"]
 LINES_PER = {"fasta2": 2, "fastq": 4}
 COLUMN_COUNT_KINDS = ("fewer-columns", "more-columns", "double-columns")
@@ -223,6 +223,34 @@ def core_cases(fmt, widths, max_records, stride=1, offset=0):
                             yield dict(c0, k=k, gzip=gz, lazy=lazy)
 
 
+def bad_text_cases():
+    """Every text of the malformed-number lists at every record of a three-record file, for the float columns of bedGraph and narrowPeak and the
+    integer columns of BED6: whole-file and small-chunk reads, lazy and eager."""
+    for fmt, cols, texts, is_float in (("bdg", FLOAT_COLS["bdg"], BAD_FLOAT, True), ("narrowpeak", FLOAT_COLS["narrowpeak"][:2], BAD_FLOAT, True),
+                                        ("bed6", [1, 4], BAD_NUM, False)):
+        recs = [S.small_record(fmt, w, i) for i, w in enumerate((1, 2, 1))]
+        for col in cols:
+            for t in texts:
+                for p in range(3):
+                    v = {"kind": "non-numeric", "pos": p, "col": col, "text": t}
+                    if is_float:
+                        v["float_column"] = True
+                    c0 = {"fmt": fmt, "records": [list(r) for r in recs], "header": S.default_header(fmt), "crlf": False, "final_nl": True, "violation": v}
+                    if fmt == "bed6":
+                        for r in c0["records"]:
+                            if r[4] == ".":
+                                r[4] = "0"
+                    data, adm, offset = malformed_bytes(c0)
+                    for k in sorted({len(data) + 2, max(1, offset + 1)}):
+                        for lazy in (False, True):
+                            yield dict(c0, k=k, gzip=False, lazy=lazy)
+
+
+def task_bad_texts(stats, known_open):
+    import sys
+    core.run_enumeration(sys.modules[__name__], bad_text_cases(), stats, known_open, name="every-malformed-number-text")
+
+
 def task_core(stats, known_open, fmt, widths, max_records, stride=1, offset=0):
     import sys
     core.run_enumeration(sys.modules[__name__], core_cases(fmt, widths, max_records, stride, offset), stats, known_open,
@@ -292,7 +320,7 @@ SAMPLED_FMTS = ["fasta2", "fastq", "bed3", "bed6", "bdg", "narrowpeak", "vcf", "
 
 
 def tasks(tier, seed):
-    out = []
+    out = [("task_bad_texts", {})]
     if tier == "quick":
         # (sampled files first: they must not be the part a time budget cuts off)
         for i, fmt in enumerate(SAMPLED_FMTS):
